@@ -400,6 +400,7 @@ func runC13(e *Engine, r *Report) {
 	ruleCodecThresholds(e, r, 3, "raftpb", [][2]string{{"(*raftpb.Entry).Size", "(*raftpb.Entry).marshalTo"}, {"(*raftpb.Entry).SizeUpperLimit", "(*raftpb.Entry).marshalTo"}})
 	ruleVarintLadder(e, r, "raftpb.sovRaft")
 	ruleVarintDecodeLoops(e, r, 140, "raftpb", "client")
+	ruleCodecNested(e, r, 1, "raftpb")
 	rulePayloadDecodeTotal(e, r)
 	ruleDecodeOwnsBytes(e, r, 10, c13AliasAccept, "raftpb")
 	ruleFrameHeaderCover(e, r)
